@@ -5,3 +5,4 @@ import Scfg.Props.C04
 import Scfg.Props.C05
 import Scfg.Props.C06
 import Scfg.Props.C14
+import Scfg.Props.C18
